@@ -482,13 +482,6 @@ theorem flatMap_nodup_of_names (f : TypeDef → List String) :
         · simp
         · simp only [List.map_cons]; exact List.mem_cons_of_mem _ (ihm x hx)
 
-/-- every object lists an interface at most once, every union a member at most once (the GraphQL type system demands
-it; the library does not check it) -/
-def membersOnce : TypeDef → Bool
-  | .object _ ifaces _ _ _ => decide ifaces.Nodup
-  | .union _ ms _ _ => decide ms.Nodup
-  | _ => true
-
 theorem metaTypes_membersOnce : metaTypes.all membersOnce = true := by decide
 
 theorem findType_mem_all {all : List TypeDef} {n : String} {td : TypeDef} (h : findType all n = some td) : td ∈ all :=
